@@ -14,6 +14,15 @@ import (
 	"github.com/robustirc/robustirc/internal/robust"
 )
 
+// sanitizeLine returns line up to (excluding) the first byte which must not
+// be part of an IRC message (CR, LF, NUL), see RFC 2812 section 2.3.1.
+func sanitizeLine(line string) string {
+	if idx := strings.IndexAny(line, "\r\n\x00"); idx > -1 {
+		return line[:idx]
+	}
+	return line
+}
+
 // handlePostMessage is called by the robustirc-bridge whenever a message should be
 // posted. The handler blocks until either the data was written or an error
 // occurred. If successful, it returns the unique id of the message.
@@ -68,12 +77,10 @@ func (api *HTTP) handlePostMessage(w http.ResponseWriter, r *http.Request, sessi
 		remoteAddr = host
 	}
 
-	// IRC messages are separated by the newline character, so ensure the
-	// message does not contain any newlines.
-	data := req.Data
-	if idx := strings.IndexByte(data, '\n'); idx > -1 {
-		data = data[:idx]
-	}
+	// IRC messages are separated by CR LF, so ensure the message does not
+	// contain any line terminators (or NUL, which must not be part of an IRC
+	// message either).
+	data := sanitizeLine(req.Data)
 	msg := &robust.Message{
 		Session:         session,
 		Type:            robust.IRCFromClient,
